@@ -14,7 +14,9 @@ sys.path.insert(0, os.path.join(VERIF, 'tools'))
 import irparse, ir2c
 
 CLANG = 'clang++-14'
-CLANG_FLAGS = ['-std=c++20', '-O1', '-fno-vectorize', '-fno-slp-vectorize', '-fno-unroll-loops',
+# -D_GLIBCXX_ASSERTIONS: libstdc++ container preconditions (front()/pop() of an empty deque, operator[] out of range, ...) become proof
+# obligations instead of undefined behaviour the solver would have to explore
+CLANG_FLAGS = ['-std=c++20', '-O1', '-fno-vectorize', '-fno-slp-vectorize', '-fno-unroll-loops', '-D_GLIBCXX_ASSERTIONS',
                '-I' + os.path.join(VERIF, 'shadow'), '-I' + os.path.join(REPO, 'src'),
                '-I' + os.path.join(VERIF, 'harness'), '-S', '-emit-llvm']
 CBMC_FLAGS = ['--unwinding-assertions', '--drop-unused-functions', '--no-malloc-may-fail',
@@ -126,7 +128,7 @@ class TU:
             for e in self.entries:
                 f.write('  if (argc > 1 && !std::strcmp(argv[1], "%s")) { %s(); return 0; }\n' % (e, e))
             f.write('  return 2;\n}\n')
-        flags = ['-std=c++20', '-O1', '-g', '-I' + os.path.join(REPO, 'src'), '-I' + os.path.join(VERIF, 'harness'), '-pthread']
+        flags = ['-std=c++20', '-O1', '-g', '-D_GLIBCXX_ASSERTIONS', '-I' + os.path.join(REPO, 'src'), '-I' + os.path.join(VERIF, 'harness'), '-pthread']
         if sanitize:
             flags += ['-fsanitize=address,undefined', '-fno-omit-frame-pointer', '-fno-sanitize-recover=undefined']
         rtc = os.path.join(self.work, 'native_rt%s.o' % ('_san' if sanitize else ''))
